@@ -109,6 +109,14 @@ func c17Callback(key string) (any, bool) {
 			observe("obsRetS", in)
 			return system.Collection{system.String("abc")}, nil
 		}, true
+	case "clobber": // a badly behaved callback: overwrites the first item of the collection it is handed
+		return func(in system.Collection) (system.Collection, error) {
+			observe("clobber", in)
+			if len(in) > 0 {
+				in[0] = system.String("clobbered")
+			}
+			return system.Collection{system.Boolean(true)}, nil
+		}, true
 	case "obsT": // observes, answers true
 		return func(in system.Collection) (system.Collection, error) {
 			observe("obsT", in)
@@ -590,6 +598,19 @@ func (e *c17Exec) runOp(in *inputs, oc *opCtx, ci, oi int, op *C17Op) string {
 		if ok, d := sameItems(got, []any{system.String("abc")}); !ok {
 			e.violate("custom-function", "return-not-passed-through", fmt.Sprintf("%s: %s", where, d))
 		}
+	case "nested-fail": // F.os(fs()): the argument expression fails with an injected error
+		if !errors.Is(gerr, injected[op.K]) {
+			e.violate("custom-function", "callback-error-lost", fmt.Sprintf("%s: a custom function called in the argument of another one returned injected error %d but Evaluate returned: %v", where, op.K, gerr))
+		} else {
+			st.fault("callback-error")
+		}
+		for _, o := range oc.obs {
+			if o.fn == "obsS" {
+				e.violate("custom-function", "invoked-despite-bad-argument", where+": the outer function ran although its argument expression failed")
+			}
+		}
+	case "context-after-clobber": // iif(cl().exists(), %context): what the callback does to ITS collection must not reach %context
+		expectItems(input, "the input collection (a callback overwrote the collection it was handed, which must not be the one behind %context)")
 	case "callS": // F.obsS(<arg>)
 		e.checkTypedCall(where, oc, op, got, gerr, items)
 	case "callH": // Patient.oh(name...): the callback's input is the resource, the argument one of its names
